@@ -139,7 +139,14 @@ func c17Sequential(r *zsim.Run) {
 		model[k] = &c17Entry{v, r.Now(), e}
 		touch(k)
 	}
-	zsim.Sleep(500 * time.Millisecond)
+	// the phase of the operations inside the wheel's one-second tick: mostly mid-tick; some runs sit exactly on the
+	// tick, where an operation races the expiry callbacks of that very tick
+	phase := zsim.Pick(o, 500*time.Millisecond, 500*time.Millisecond, 0, time.Millisecond, 999*time.Millisecond)
+	if phase > 0 {
+		zsim.Sleep(phase)
+	} else {
+		r.Probe("operations_on_the_tick")
+	}
 	nops := 4 + o.Intn(16)
 	if r.Tier == "thorough" && o.Intn(4) == 0 {
 		nops = 40 + o.Intn(80) // the thorough tier also draws longer histories
